@@ -37,12 +37,16 @@ type Case struct {
 	Entry     int    `json:"entry"`  // targeted entry index (-1 for file-level forms)
 	Locked    bool   `json:"locked"` // the targeted check comes from a locked block
 	Relaxed   bool   `json:"relaxed"`
+	NEntries  int    `json:"n_entries"` // number of rules in the case's own file (entries after that belong to the fixed second file)
 }
 
 var errSkip = errors.New("precondition not met")
 
 func problems(src, cfg string, relaxed bool) ([]lint.TaggedProblem, error) {
-	res := lint.Files([]lint.File{{Name: "rules.yml", Content: []byte(src)}}, lint.Options{Relaxed: relaxed, ConfigHCL: cfg, SkipChecks: true, KeepDir: true})
+	// a second, fixed file is always linted together with the case's file: a comment in one file must never
+	// change what is reported for another file (files are discovered in name order: rules.yml, then zz_other.yml)
+	res := lint.Files([]lint.File{{Name: "rules.yml", Content: []byte(src)}, {Name: "zz_other.yml", Content: []byte(otherFile)}},
+		lint.Options{Relaxed: relaxed, ConfigHCL: cfg, SkipChecks: true, KeepDir: true})
 	defer res.Cleanup()
 	if res.CfgErr != nil {
 		return nil, fmt.Errorf("config rejected: %v", res.CfgErr)
@@ -71,6 +75,24 @@ func problems(src, cfg string, relaxed bool) ([]lint.TaggedProblem, error) {
 	return out, perr
 }
 
+const otherFile = `groups:
+- name: other
+  rules:
+  - alert: OtherAlwaysFiring
+    expr: foo
+    labels:
+      severity: page
+    annotations:
+      text: "{{ $labels.missing }} on {{ $labels.instance }}"
+  - alert: OtherAgg
+    expr: sum(rate(errors_total[5m])) without (instance) > 0
+    for: 1m
+    annotations:
+      text: "{{ $labels.instance }} broken"
+  - record: other:sum
+    expr: sum(foo) by (instance)
+`
+
 func keys(ps []lint.TaggedProblem) []string {
 	out := make([]string, 0, len(ps))
 	for _, p := range ps {
@@ -86,7 +108,7 @@ func expected(c Case, pb []lint.TaggedProblem) (want []lint.TaggedProblem, slice
 	for _, p := range pb {
 		hit := false
 		if !noEffect {
-			inScope := strings.HasPrefix(c.Form, "file/") || p.Entry == c.Entry
+			inScope := (strings.HasPrefix(c.Form, "file/") && p.Entry < c.NEntries) || (!strings.HasPrefix(c.Form, "file/") && p.Entry == c.Entry)
 			if inScope {
 				// a comment naming the reporter silences every instance of it; one naming a
 				// check instance (its String()) silences that instance
@@ -252,17 +274,27 @@ func genCase(t *rapid.T) Case {
 		return Case{} // trivial: nothing reported (or the vocabulary produced a parse error)
 	}
 	// pick the reporter first so that rare reporters are targeted as often as frequent ones
+	nOwn := 0
+	for _, rs := range b.rules {
+		nOwn += len(rs)
+	}
 	byRep := map[string][]lint.TaggedProblem{}
 	var reps []string
 	for _, p := range pb {
+		if p.Entry >= nOwn {
+			continue // problems of the fixed second file are never targeted
+		}
 		if _, ok := byRep[p.Reporter]; !ok {
 			reps = append(reps, p.Reporter)
 		}
 		byRep[p.Reporter] = append(byRep[p.Reporter], p)
 	}
+	if len(reps) == 0 {
+		return Case{}
+	}
 	sort.Strings(reps)
 	target := rapid.SampledFrom(byRep[rapid.SampledFrom(reps).Draw(t, "targetReporter")]).Draw(t, "target")
-	c := Case{Config: cfg, Reporter: target.Reporter, Check: target.Check, Entry: target.Entry, Locked: locked[target.Reporter], Relaxed: relaxed}
+	c := Case{Config: cfg, Reporter: target.Reporter, Check: target.Check, Entry: target.Entry, Locked: locked[target.Reporter], Relaxed: relaxed, NEntries: nOwn}
 	c.Spelling = rapid.SampledFrom([]string{"name", "name", "name", "string", "string", "near-miss"}).Draw(t, "spelling")
 	c.Match = target.Reporter
 	switch c.Spelling {
@@ -347,7 +379,7 @@ func genCase(t *rapid.T) Case {
 			rule.Pairs[pi].Before = append(append([]string{}, rule.Pairs[pi].Before...), pre)
 		}
 	}
-	placements := []string{"above", "between", "trailing"}
+	placements := []string{"above", "between", "trailing", "between-in-map"}
 	if fileLevel {
 		placements = []string{"top", "above", "between"}
 	}
@@ -366,6 +398,22 @@ func genCase(t *rapid.T) Case {
 			old := seq.ItemBefore[idx]
 			seq.ItemBefore[idx] = append(append([]string{}, old...), "# "+comment)
 			defer func() { seq.ItemBefore[idx] = old }()
+		case "between-in-map":
+			// own line between two entries of a block-style labels / annotations mapping
+			var maps []*gen.Node
+			for _, p := range rule.Pairs {
+				if p.Val.Kind == gen.MapKind && !p.Val.Flow && len(p.Val.Pairs) >= 2 {
+					maps = append(maps, p.Val)
+				}
+			}
+			if len(maps) == 0 {
+				return ""
+			}
+			m := maps[rapid.IntRange(0, len(maps)-1).Draw(t, "mapAt")]
+			pi := rapid.IntRange(1, len(m.Pairs)-1).Draw(t, "mapPairAt")
+			old := m.Pairs[pi].Before
+			m.Pairs[pi].Before = append(append([]string{}, old...), "# "+comment)
+			defer func() { m.Pairs[pi].Before = old }()
 		case "between":
 			if len(rule.Pairs) < 2 {
 				return ""
